@@ -24,6 +24,59 @@ CHECKS = {
    technique="property-based testing / fault injection (proptest) with catch_unwind oracle over every consumer of foreign data",
    text="All listed entry points run under catch_unwind on the malformed-string families of C08, on degenerate but decodable shares, on mutated public-key/proof bytes and JSON texts (every prefix), on arbitrary 32-byte points x tags, on evaluations with missing proofs / undecodable points, and on arbitrary text for the WASM grouping call; decoded values are passed on to their consumers. Any unwind is a violation.",
    note="Aborts are only detected through the exit status (run.sh); Point::from(&[u8]) and Client::unblind are outside the statement's list."),
+
+ "C02": dict(cat="exploration", design="5/C02",
+   technique="property-based testing (proptest): adversarial sub-threshold collections, byte scans for secrets, big-integer coefficient recovery",
+   text="Generated sub-threshold collections (d <= t-1 distinct target reports padded with duplicates and foreign reports, forged thresholds 0..t-1 / t+1 / 2^32-1, shuffled) must never recover the target secret and must fail unless a foreign group reaches its own threshold; every encoded report is scanned at every offset for the client's 16/24/32-byte secrets; polynomial shape (exact degree, non-zero pairwise distinct coefficients, disjoint across measurements) is recovered with num-bigint. Necessary conditions for confidentiality, sampled.",
+   note="Confidentiality cannot be established by testing; only the listed necessary conditions are checked. Secrets are obtained through the public API."),
+ "C03": dict(cat="exploration", design="5/C03",
+   technique="property-based testing (proptest): metamorphic ciphertext/plaintext difference relation, window-as-key decryption, byte scans",
+   text="Sequences of 2-5 sub-threshold reports of one measurement with related associated data: aux never in the clear, no 16/32-byte window of the report decrypts the payload, C xor C' vs P xor P' stays at chance level outside the duplex block of the first difference and between different measurements. The relation inside that block is the recorded known finding F9 (no per-report nonce); it is announced with KNOWN-FINDING and excluded, every other violation still fails the check.",
+   note="Statistical bound N/256 + 7 sqrt(N/256) + 4 and no run >= 8 for the XOR relation; Strobe-128 block = 166 bytes."),
+ "C04": dict(cat="exploration", design="5/C04",
+   technique="property-based testing (proptest) with a relation generator for pairs of triples plus enumerated boundary-shift families",
+   text="Independent clients agreeing on (measurement, epoch, threshold) must derive equal randomness, tags and keys, pairwise distinct evaluation points and mutually combinable shares; related-but-different triples (boundary shifts, emptied components, prefixes, every one-bit threshold change, zero padding) must differ in randomness, tag and key; every split of short strings is enumerated against every other.",
+   note="Tags/keys are observable only through a sharing, hence compared for thresholds <= 200; randomness for all u32 thresholds."),
+ "C05": dict(cat="fault_enumeration", design="5/C05",
+   technique="property-based testing (proptest) over share mixtures with per-share complete fault enumeration (field x offset x kind)",
+   text="1-4 sharings interleaved with repetition, then one fault, a rewritten threshold, a transplanted field or all offsets x 12 kinds on one share; the result must be Err or the message of the sharing of the first share, and an altered first share must be rejected (exemption: x at t = 1).",
+   note="Share points come from OsRng; decode rejection counts as rejection."),
+ "C10": dict(cat="model_checking", design="5/C10",
+   technique="model-based testing: exhaustive sub-domain lattice exploration + all ordered pairs + proptest operation histories against a reference model",
+   text="Reference model (256 original values + punctured set). Every subset and every single-step transition of 8-leaf (thorough: also 16-leaf) sub-domains in six shapes, all 65280 ordered pairs, and generated histories up to complete puncturing in adversarial orders; the invariant is checked after every step on the real GGM key.",
+   note="Exhaustive only for the explored sub-domains; each key is a fresh OsRng key."),
+ "C11": dict(cat="model_checking", design="5/C11",
+   technique="model-based testing with an observation hook: same exploration as C10 plus proptest server histories with export/import at every position",
+   text="After every step of the C10 exploration and of generated server histories the retained node list (hook) must cover no punctured input and every unpunctured one exactly once, path seeds and punctured values must not survive in the key or as a substring of the exported state, and an importer must behave like the exporter on all 256 inputs.",
+   note="Needs the verif-hooks view of the retained nodes; material hidden outside the node list / export is invisible."),
+ "C12": dict(cat="exploration", design="5/C12",
+   technique="property-based testing (proptest): algebraic equalities / inequalities across repeated blinded requests",
+   text="For generated inputs, tag sets, 1-3 servers and 2-6 repeated requests: unblinded result equals the server's evaluation of the unblinded input point, finalised output identical across requests and different across tags, inputs and servers; blinded points fresh and different from the input point.",
+   note="Blinding scalars and keys come from OsRng; unlinkability is only sampled through freshness."),
+ "C13": dict(cat="fault_enumeration", design="5/C13",
+   technique="property-based testing (proptest) with systematic component substitution; commitments recomputed with curve25519-dalek",
+   text="Honest tuples verify in original and restored (bincode / JSON) form; each of the six components replaced in turn by other honest values, neighbours (+-1, bit flips), identity / zero, undecodable strings must be rejected; commitments s*G + c*PK recomputed in the harness are pairwise distinct, also for repeated identical requests.",
+   note="Public-key tampering limited to base point, the verified tag's entry, another server's key."),
+ "C14": dict(cat="model_checking", design="5/C14",
+   technique="model-based stateful testing (proptest op sequences interpreted against a reference model of the server pool)",
+   text="Histories of eval / puncture / clone / export-import into a server created with another tag set / sweeps over a pool of handles; after every op: answers iff registered and unpunctured in that handle's history, answers never change, punctures affect no other tag, public key constant, importer equal to exporter on all 256 tags, clones independent.",
+   note="Bounded depth (60 / 120 ops); keys from OsRng."),
+ "C15": dict(cat="exploration", design="5/C15",
+   technique="property-based testing (proptest) with round-trip oracle and an independent reader of the documented bincode/JSON forms; enumerated tag-set sizes and truncations",
+   text="Round trips for keys of every tag-set size, proofs, points, evaluations, all original/restored combinations interchangeable in verification; every strict prefix refused; limits +-2; mutated / unsorted / repeated-tag / raw bytes judged against an independent reader so that an accepted value is never partially initialised.",
+   note="bincode trailing-byte tolerance is not asserted; JSON via from_str/from_slice only."),
+ "C16": dict(cat="exploration", design="5/C16",
+   technique="property-based testing (proptest): round-trip, determinism and re-share metamorphic relations, big-integer polynomial consistency",
+   text="For generated (t, message, coins, transcripts): shares identical outside S, points on one polynomial, t distinct recover / t-1 do not, recovered sharing re-shares compatibly (old+new mixes recover), t = 0 never recovers, custom-transcript shares rejected.",
+   note="Share points from OsRng; lengths to 3 kB quick / 100 kB thorough."),
+ "C17": dict(cat="exploration", design="5/C17",
+   technique="property-based testing (proptest): differential against the core API",
+   text="create_share output parsed independently (serde_json, base64) and compared with MessageGenerator::share_with_local_randomness; group_shares returns the clients' key iff >= t distinct shares, never under another epoch, nothing for mixed groupings below threshold or t = 0; epochs include empty and multi-byte strings.",
+   note="wasm_bindgen functions are called natively on the host target."),
+ "C18": dict(cat="exploration", design="5/C18",
+   technique="property-based testing (proptest): expected-multiset oracle under permutations and worker-pool sizes",
+   text="Generated report multisets (group sizes around t, up to 40 / 400 groups, aux absent/empty/bytes), each run in grouped order, permuted order and under two rayon pool sizes; output must equal the multiset of groups with >= t reports with exactly their associated data.",
+   note="Schedules only through pool size; empty and absent associated data compared as equal for this reference utility (asserted exactly in C01)."),
 }
 PENDING = {}
 
@@ -68,6 +121,6 @@ def main():
     json.dump(m, open(os.path.join(here, "MANIFEST.json"), "w"), indent=1)
     print("claimed:", len(checks), "not_applicable:", len(na))
 
-HOOK_COMMITS = ["5c0df98"]
+HOOK_COMMITS = ["5c0df98", "44ba1c0"]
 if __name__ == "__main__":
     main()
